@@ -86,7 +86,22 @@ func genOps(t *rapid.T, label string, lo, hi int, s *sut.Server) []op {
 			ops = append(ops, op{Actor: actor, Select: &db})
 			continue
 		}
+		if rapid.IntRange(0, 11).Draw(t, "rewrite") == 0 {
+			// a log rewrite in the middle of the workload: what is logged afterwards must still be replayed
+			// into the right database and on top of the right state (the rewrite itself is C09's subject)
+			ops = append(ops, op{Actor: actor, Cmd: []string{"REWRITEAOF"}})
+			continue
+		}
 		ops = append(ops, op{Actor: actor, Cmd: sanitize(genCmd(t, m))})
+	}
+	// the last command is the one whose logging is dissected: it has to be a write
+	for i := len(ops) - 1; i >= 0; i-- {
+		if ops[i].Cmd != nil {
+			if ops[i].Cmd[0] == "REWRITEAOF" {
+				ops = append(ops, op{Actor: "emb", Cmd: []string{"SET", "a", "after-rewrite"}})
+			}
+			break
+		}
 	}
 	return ops
 }
